@@ -85,6 +85,28 @@ def run(repo, rep, tier):
                 f_ = allf.get((path_, fq_))
                 if arg is None or f_ is None:
                     continue
+                if isinstance(arg, ast.Name):
+                    from ..valuesets import local_values
+                    lv = local_values(repo, f_, arg.id)
+                    if lv is None:
+                        r1b.undecided.append('%s: %s@%s = %s' % (
+                            fq_, e_, a_, norm(arg)))
+                        continue
+                    r1b.sites += 1
+                    r1b.functions.add(f_.fq)
+                    allowed = ({None, True, False} if boolish else
+                               set(info['type']) | {None})
+                    extra = sorted(str(v) for v in lv - allowed)
+                    r1b.ob(not extra, '%s|%s@%s' % (fq_, e_, a_),
+                           {'values': sorted(str(v) for v in lv),
+                            'dtd': info['type']})
+                    if extra:
+                        rep.finding(r1b, fq_, '%s@%s = %s' % (
+                            e_, a_, norm(arg)), 'enum-value', path_, line_,
+                            '%s can be %s here, which the DTD does not '
+                            'allow for %s@%s (%s)' % (
+                                norm(arg), extra, e_, a_, info['type']))
+                    continue
                 if not (isinstance(arg, ast.Attribute) and
                         isinstance(arg.value, ast.Name) and
                         arg.value.id == 'self' and f_.cls is not None):
